@@ -67,8 +67,8 @@ CHECKS = {
     "C07": dict(level="fault_enumeration", jobs=[J("TestC07", (4, 25), (16, 60)), J("FuzzRecoverBytes", (0, 0), (1, 60), kind="fuzz")],
                 rule="one evaluation = one damaged head segment: a segment of 1..6 generated messages (four index configurations, V2; V1 for truncation only) written by the repository's writers, then EVERY truncation length (0, >=8), every byte position after the header (quick: one bit + 0x00 + 0xFF; thorough: all 8 bits), zero/0xFF/pattern tails of every length up to two records, and every index damage (missing, every truncation, every byte, extra items, other layout/container); oracle = independent reference parser (longest valid prefix, derived index); non-trivial = valid prefix is proper and non-empty, or only the index is damaged; distinct by (segment hash, damage)",
                 exhaustive_note="per generated segment the enumerated damage space is complete (thorough) / complete for truncations and index damage, sampled bits for byte corruption (quick)"),
-    "C13": dict(level="exploration", jobs=[J("TestC13Codec", (4, 15000), (16, 150000)), J("TestC13Hist", (2, 800), (8, 6000), steps=40), J("FuzzParseDifferential", (0, 0), (1, 60), kind="fuzz")],
-                rule="codec job: one case = up to 5 generated messages (key/value 0..300 B plus 4 KiB/70 KiB, times over the whole int64 microsecond range, offsets up to MaxInt64) x V1/V2 x file/mmap reader x four index layouts x both index containers: writer bytes == independent encoder for log and index, reported positions, Size, readers on independently encoded files, parser agreement on a damaged copy; history job: Stat and Log.Size against os.Stat after every step; non-trivial codec case = >=2 records or an empty key/value or a boundary time; history case = multi-segment with deletes; distinct by case hash"),
+    "C13": dict(level="exploration", jobs=[J("TestC13Codec", (4, 15000), (16, 150000)), J("TestC13Hist", (2, 800), (8, 6000), steps=40), J("FuzzParseDifferential", (0, 0), (1, 60), kind="fuzz"), J("TestC13Boundary", (1, 0), (1, 0), kind="plain")],
+                rule="codec job: one case = up to 5 generated messages (key/value 0..300 B plus 4 KiB/70 KiB, times over the whole int64 microsecond range, offsets up to MaxInt64) x V1/V2 x file/mmap reader x four index layouts x both index containers: writer bytes == independent encoder for log and index, reported positions, Size, readers on independently encoded files, parser agreement on a damaged copy; history job: Stat and Log.Size against os.Stat after every step; non-trivial codec case = >=2 records or an empty key/value or a boundary time; history case = multi-segment with deletes; distinct by case hash. History job also checks at every close that index timestamps are a running maximum of the message times in the file from one carried value (any times). Boundary job: fixed enumeration of the largest accepted message sizes (64 MiB and neighbours) through both readers and through Publish/Consume/reopen with Recover/Check"),
     "C14": dict(level="fault_enumeration", jobs=[J("TestC14", (4, 40), (16, 20)), J("FuzzDamageRead", (0, 0), (1, 90), kind="fuzz")],
                 rule="one evaluation = one damage of one .log file of a generated multi-segment V2 log (4..14 messages, deletes, index files intact): bit flip, 1-8 byte overwrite, truncation, zero-filled tail (quick: one position per record field + length-field high bits + 5 cut points per record; thorough: every position, all bits), then a fresh Open and Get/Consume at every offset, GetByKey/ConsumeByKey for every key, GetByTime at every microsecond, each compared with the same call on the undamaged copy and the model (safety, must-fail, unchanged, no panic, <=256 MiB per call); non-trivial = damage inside a record; distinct by (log hash, damage, field hit, segment role). Thorough adds a 90 s coverage-guided campaign (FuzzDamageRead: log x segment x position x 1-8 bytes) under the same oracle"),
     "C18": dict(level="exploration", jobs=[J("TestC18", (4, 10000), (16, 100000)), J("TestC18Exhaustive", (3, 0), (8, 0), kind="plain", timeout=(900, 5400)), J("TestC18Free", (2, 300), (8, 3000))],
